@@ -437,6 +437,7 @@ func (s *c16Scenario) request(w int, kind string, api int, name string) c16Step 
 	st := c16Step{who: w, api: api, kind: kind, name: name}
 	var code int
 	var resp map[string]any
+	foreignDistance := false
 	switch kind {
 	case "create":
 		if api == 1 {
@@ -515,10 +516,35 @@ func (s *c16Scenario) request(w int, kind string, api int, name string) c16Step 
 				"query":  map[string]any{"property": "_id", "stringArray": map[string]any{"value": e.idPool[:min(90, len(e.idPool))], "operator": "containsAny"}},
 				"select": []string{"*"}, "limit": 100})
 		} else {
+			qv := []float32{float32(r.IntN(10)), float32(r.IntN(10))}
 			code, resp = e.do(u, "POST", colPath(2, name, "/points/search"), map[string]any{
 				"query": map[string]any{"property": "vector", "vectorVamana": map[string]any{
-					"vector": []float32{float32(r.IntN(10)), float32(r.IntN(10))}, "operator": "near", "searchSize": 75, "limit": 75}},
+					"vector": qv, "operator": "near", "searchSize": 75, "limit": 75}},
 				"select": []string{"*"}, "limit": 75})
+			// every reported distance is the distance from the query to the vector of the returned point itself (small
+			// integers: exact). An answer ranked with somebody else's vectors returns the user's own points, but with
+			// distances that are not theirs
+			if items, ok := resp["points"].([]any); ok && code == 200 {
+				for _, it := range items {
+					m, ok := it.(map[string]any)
+					if !ok {
+						continue
+					}
+					vec, ok1 := m["vector"].([]any)
+					dist, ok2 := m["_distance"].(float64)
+					if !ok1 || !ok2 || len(vec) != 2 {
+						continue
+					}
+					x, okx := vec[0].(float64)
+					y, oky := vec[1].(float64)
+					if okx && oky {
+						want := (x-float64(qv[0]))*(x-float64(qv[0])) + (y-float64(qv[1]))*(y-float64(qv[1]))
+						if dist != want {
+							foreignDistance = true
+						}
+					}
+				}
+			}
 		}
 		if items, ok := resp["points"].([]any); ok {
 			for _, it := range items {
@@ -533,6 +559,9 @@ func (s *c16Scenario) request(w int, kind string, api int, name string) c16Step 
 		}
 	}
 	st.class = c16Class(code)
+	if foreignDistance {
+		st.class = 7
+	}
 	if st.class == 9 && os.Getenv("VERIF_C16_TRACE") != "" {
 		fmt.Fprintf(os.Stderr, "unexpected status %d: %v\n", code, resp)
 	}
@@ -721,6 +750,8 @@ func runC16(rc *runCtx) error {
 			plan = append(plan,
 				c16Plan{first, "create", 2, nm}, c16Plan{1 - first, "create", 2, nm},
 				c16Plan{first, "insert", 2, nm}, c16Plan{1 - first, "insert", 2, nm}, c16Plan{1 - first, "insert", 2, nm},
+				// both hold points under the same name and both indexes are warm: each searches her own
+				c16Plan{first, "search", 2, nm}, c16Plan{1 - first, "search", 2, nm}, c16Plan{first, "insert", 2, nm}, c16Plan{1 - first, "search", 2, nm},
 				c16Plan{first, "delete", 2, nm}, c16Plan{1 - first, "get", 2, nm}, c16Plan{1 - first, "search", 2, nm},
 				c16Plan{first, "create", 2, nm}, c16Plan{first, "insert", 2, nm},
 				c16Plan{1 - first, "delete", 2, nm}, c16Plan{first, "search", 2, nm})
